@@ -372,6 +372,13 @@ pub fn kinds_entries(loc: &str, ns: &str) -> Vec<(String, Val)> {
                     ],
                 }),
             ),
+            // count-driven keys whose texts hold nothing but text (no variable, not even the count)
+            ("pp_one".into(), st(&t(&format!("{pre}pp.one")))),
+            ("pp_other".into(), st(&t(&format!("{pre}pp.other")))),
+            (
+                "rp".into(),
+                Val::Range(RangeDecl { ty: Some("u8".into()), branches: vec![rbr(st(&t(&format!("{pre}rp.0-1"))), vec![CountSpec::Str("0..=1".into())]), rbr(st(&t(&format!("{pre}rp.fb"))), vec![])] }),
+            ),
             ("plu_one".into(), s(vec![text(&t(&format!("{pre}plu.one"))), var("count")])),
             ("plu_other".into(), s(vec![text(&t(&format!("{pre}plu.other"))), var("count"), var("x")])),
             ("ord_ordinal_one".into(), s(vec![var("count"), text(&t(&format!("{pre}ord.one")))])),
@@ -408,7 +415,7 @@ pub fn kinds_project() -> Project {
         let mut de: Vec<(String, Val)> = vec![];
         for (k, v) in kinds_entries("de", ns) {
             match k.as_str() {
-                "lit" | "interp" | "range" | "plu_one" | "plu_other" => de.push((k, v)),
+                "lit" | "interp" | "range" | "plu_one" | "plu_other" | "pp_one" | "pp_other" | "rp" => de.push((k, v)),
                 "compo" | "frange" | "fk" => de.push((k, Val::Null)),
                 "g" => de.push((k, Val::Sub(vec![("h".into(), Val::Null), ("top".into(), st(&format!("[de.{ns}.g.top]")))]))),
                 _ => {}
@@ -430,6 +437,7 @@ fn c02(tier: Tier) -> i32 {
     for (ci, ns) in m.namespaces().into_iter().enumerate() {
         let mut c = Case::new(&format!("c02_{}_{ci}", tier.name()), project.clone());
         c.probe.items.push_str(CTX_ITEMS);
+        c.probe.items.push_str(LATE_ITEMS);
         for path in m.default_keys(&ns) {
             n_keys += 1;
             let sig = key_sig(&m, &ns, &path);
@@ -487,6 +495,31 @@ fn c02(tier: Tier) -> i32 {
                         let scs: Vec<Scoping> = if segments.len() > 1 { vec![Scoping::None, Scoping::At(1)] } else { vec![Scoping::None] };
                         for sc in scs {
                             c.add(scoped_call_switch(fl, sc, &locale_variant(from), Some(&locale_variant(loc)), &segments, &tail), format!("{fl:?} {sc:?} {key} built @{from} rendered @{loc}"), text.clone());
+                        }
+                    }
+                }
+                // a view whose count closure gives another number when it is rendered than when it was built shows the
+                // branch / form of the number at rendering time (count-driven keys, integer counts)
+                if !sig.counts.is_empty() && sig.counts.values().all(|k| k.iter().all(|c| !matches!(c, CountKind::Range(t) if t.is_float()))) {
+                    for fl in [Flavour::Td, Flavour::T, Flavour::Tu] {
+                        if path.len() > 1 && tier == Tier::Quick && fl != Flavour::Td {
+                            continue;
+                        }
+                        for (a, b) in [(1i64, 5i64), (5, 1), (0, 2), (2, 0)] {
+                            LATE_COUNTS.store(true, std::sync::atomic::Ordering::Relaxed);
+                            let r = args_for(&sig, fl, Num::I(b as i128));
+                            LATE_COUNTS.store(false, std::sync::atomic::Ordering::Relaxed);
+                            let Some((tail, env)) = r else { continue };
+                            let Some(text) = expected(&m, &ns, loc, &path, &env) else { continue };
+                            let call = scoped_call(fl, Scoping::None, &locale_variant(loc), &segments, &tail);
+                            // `{ bindings.. html(mac!(..)) }` -> build, change the number, render
+                            let Some(inner) = call.strip_prefix("{ ").and_then(|c| c.strip_suffix(" }")) else { continue };
+                            let Some((pre, view)) = inner.rsplit_once("html(") else { continue };
+                            let view = view.strip_suffix(')').unwrap_or(view);
+                            c.add(format!("{{ set_late({a}); {pre}let v = {view}; set_late({b}); html(v) }}"), format!("{fl:?} {key} @{loc} count {a} when built, {b} when rendered"), text.clone());
+                            // .. and with the closure the macro returns already called once (the view object exists, as after
+                            // a first render) before the number changes: what is inside stays a function of the count
+                            c.add(format!("{{ set_late({a}); {pre}let v = ({view})(); set_late({b}); html(v) }}"), format!("{fl:?} {key} @{loc} count {a} when the view object was made, {b} when rendered"), text);
                         }
                     }
                 }
@@ -555,7 +588,7 @@ fn c02(tier: Tier) -> i32 {
     rep.nontriv(n_keys * m.locales.len() as u64);
     rep.sample(json!({"probe_call": "{ ctx().set_locale(Locale::de); let c = ctx(); let c = scope_i18n!(c, main); let c = scope_i18n!(c, g); t_string!(c, h.interp, x = \"«x»\", y = \"«y»\").to_string() }"}));
     let mut cov = serde_json::Map::new();
-    cov.insert("rule".into(), json!("project with one key of every kind (string, number, bool, interpolation, components, u8 range, f32 range, cardinal plural, ordinal plural, foreign keys plain / with renamed count / with literal count) at top level and at depth 3, in two namespaces, three locales (de inherits fr, holds explicit nulls and gaps); every key x every locale x 9 flavours (td/t/tu x view/string/display) x scoping at every proper prefix (one step, chained one segment at a time, use_i18n_scoped!) x counts {0,1,2,5}, plus the const accessor chain for plain literals, plus t! / tu! views built under every other locale and rendered after the context moved to the locale in question; context flavours run on a natively created I18nContext whose locale is set before each call; every record must equal the reference rendering (hence all flavours agree pairwise); a second project (en, bn, sv) whose keys carry number formatters (default, never, always, min2, spaced spelling): each of the 9 flavours x 7 values (positive, negative, zero, fractional, i32 / i64 / u8 typed) must equal the direct ICU4X call for the locale; quick tier thins view flavours under scoping"));
+    cov.insert("rule".into(), json!("project with one key of every kind (string, number, bool, interpolation, components, u8 range, f32 range, cardinal plural, ordinal plural, a plural and a range made of plain text only, foreign keys plain / with renamed count / with literal count) at top level and at depth 3, in two namespaces, three locales (de inherits fr, holds explicit nulls and gaps); every key x every locale x 9 flavours (td/t/tu x view/string/display) x scoping at every proper prefix (one step, chained one segment at a time, use_i18n_scoped!) x counts {0,1,2,5}, plus the const accessor chain for plain literals, plus t! / tu! views built under every other locale and rendered after the context moved to the locale in question, plus td! / t! / tu! views of count-driven keys whose count closure changes its value between building and rendering; context flavours run on a natively created I18nContext whose locale is set before each call; every record must equal the reference rendering (hence all flavours agree pairwise); a second project (en, bn, sv) whose keys carry number formatters (default, never, always, min2, spaced spelling): each of the 9 flavours x 7 values (positive, negative, zero, fractional, i32 / i64 / u8 typed) must equal the direct ICU4X call for the locale; quick tier thins view flavours under scoping"));
     cov.insert("exhaustive".into(), json!(tier == Tier::Thorough));
     rep.finish(cov, &["tu!/tu_string! read the context untracked: same value, no subscription (subscription is not observable here)"])
 }
@@ -869,6 +902,29 @@ fn render_page2(eager: impl Fn() + Clone + Send + Sync + 'static, touch: impl Fn
     });
     html
 }
+/// as `render_page2`, but the view is walked once with `dry_resolve()` before it is rendered - what a streamed
+/// render does with everything below a `<Suspense>` boundary
+fn render_page_dry(eager: impl Fn() + Clone + Send + Sync + 'static, touch: impl Fn() + Clone + Send + Sync + 'static) -> String {
+    struct Noop;
+    impl any_spawner::CustomExecutor for Noop {
+        fn spawn(&self, _f: any_spawner::PinnedFuture<()>) {}
+        fn spawn_local(&self, _f: any_spawner::PinnedLocalFuture<()>) {}
+        fn poll_local(&self) {}
+    }
+    let _ = any_spawner::Executor::init_custom_executor(Noop);
+    let owner = Owner::new();
+    owner.with(|| {
+        let opts = leptos_i18n::context::UseLocalesOptions::default().ssr_lang_header_getter(|| None);
+        let mut v = view! {
+            <I18nContextProvider enable_cookie=false ssr_lang_header_getter=opts>
+                {eager(); "head"}
+                <p>{move || { touch(); "body" }}</p>
+            </I18nContextProvider>
+        };
+        v.dry_resolve();
+        v.to_html()
+    })
+}
 /// `outer` is read under the page's provider, `inner` below a `<I18nSubContextProvider>` nested in it (eagerly while
 /// its children are built when `inner_eager`, else at render time)
 fn render_page_sub(outer: impl Fn() + Clone + Send + Sync + 'static, inner: impl Fn() + Clone + Send + Sync + 'static, inner_eager: bool) -> String {
@@ -1004,6 +1060,13 @@ fn c17(tier: Tier, pid: &str) -> i32 {
             }
             c.add(format!("render_page(move || {{ {body} }})"), format!("PAGE touched {:?}", seq.iter().map(|u| live_units[*u]).collect::<Vec<_>>()), String::new());
             n_pages += 1;
+            // .. and with the view walked once (dry_resolve) before it is rendered: units read once, eagerly, are still
+            // units the request used
+            if seq.len() == 1 || seq.len() == 2 {
+                c.add(format!("render_page_dry(move || {{ {body} }}, || {{}})"), format!("PAGE dry-resolved eager touched {:?}", seq.iter().map(|u| live_units[*u]).collect::<Vec<_>>()), String::new());
+                c.add(format!("render_page_dry(|| {{}}, move || {{ {body} }})"), format!("PAGE dry-resolved lazy touched {:?}", seq.iter().map(|u| live_units[*u]).collect::<Vec<_>>()), String::new());
+                n_pages += 2;
+            }
             // the same units read while the component body is built (eagerly), and the first eagerly / the rest lazily
             if !seq.is_empty() && (seq.len() <= 2 || tier == Tier::Thorough) {
                 c.add(format!("render_page2(move || {{ {body} }}, || {{}})"), format!("PAGE eager touched {:?}", seq.iter().map(|u| live_units[*u]).collect::<Vec<_>>()), String::new());
@@ -1214,7 +1277,7 @@ fn c17(tier: Tier, pid: &str) -> i32 {
     rep.nontriv(n_pages);
     rep.sample(json!({"strings": ["\"\\", "</script>", "he said \"hi\" \\ </script> end", "\u{2028}a"]}));
     let mut cov = serde_json::Map::new();
-    cov.insert("rule".into(), json!("two probe crates built with dynamic_load + ssr (two namespaces x two locales; no namespaces): translation strings = all 196 two-character strings over 14 hostile characters plus </script>, </SCRIPT , <!--, -->, ]]>, U+2029, quotes, backtick, ${x}, newlines alone and inside a sentence with quotes and backslashes, and every sequence of <= 2 (thorough 3) tokens over <!--, <script>, <script , </script>, -->, <!-->, x; pages = <I18nContextProvider> rendered natively to HTML for every ordered subset of touched units (65 with namespaces, 5 without) and a context-driven render with a locale switch in the middle; third probe crate: every such token sequence of <= 2 tokens (+ a trailing x; thorough <= 3) alone in a namespace of its own, one page per namespace, plus two namespaces whose values are variables only (empty string tables) rendered alone, before / after another unit and both together with a third unit in three orders (an empty table is then never the last unit written), every page of <= 2 units also with the units read eagerly - while the provider's children are built, as a t_string! in a component body does - and with the first unit eager and the rest lazy, and a namespace whose name (`dash-ns`) differs from its Rust identifier; oracle: the <script> element is cut the way the WHATWG tokenizer cuts it (script data / escaped / double escaped states: after `<!--` then `<script` an end tag no longer closes the element), every script element of the page is evaluated in document order - each body must be `window.__LEPTOS_I18N_TRANSLATIONS = <array literal>;` and the value of the last one is what the client finds -, it is read by an ECMAScript literal reader (all JS escapes, no raw line terminators in strings), and its decoded value must list exactly the touched (locale, unit) pairs, each with the unit's table as exported by the generated server function"));
+    cov.insert("rule".into(), json!("two probe crates built with dynamic_load + ssr (two namespaces x two locales; no namespaces): translation strings = all 196 two-character strings over 14 hostile characters plus </script>, </SCRIPT , <!--, -->, ]]>, U+2029, quotes, backtick, ${x}, newlines alone and inside a sentence with quotes and backslashes, and every sequence of <= 2 (thorough 3) tokens over <!--, <script>, <script , </script>, -->, <!-->, x; pages = <I18nContextProvider> rendered natively to HTML for every ordered subset of touched units (65 with namespaces, 5 without) and a context-driven render with a locale switch in the middle; third probe crate: every such token sequence of <= 2 tokens (+ a trailing x; thorough <= 3) alone in a namespace of its own, one page per namespace, plus two namespaces whose values are variables only (empty string tables) rendered alone, before / after another unit and both together with a third unit in three orders (an empty table is then never the last unit written), every page of <= 2 units also walked once with dry_resolve() before rendering (what a streamed render does below a Suspense boundary), and with the units read eagerly - while the provider's children are built, as a t_string! in a component body does - and with the first unit eager and the rest lazy, and a namespace whose name (`dash-ns`) differs from its Rust identifier; oracle: the <script> element is cut the way the WHATWG tokenizer cuts it (script data / escaped / double escaped states: after `<!--` then `<script` an end tag no longer closes the element), every script element of the page is evaluated in document order - each body must be `window.__LEPTOS_I18N_TRANSLATIONS = <array literal>;` and the value of the last one is what the client finds -, it is read by an ECMAScript literal reader (all JS escapes, no raw line terminators in strings), and its decoded value must list exactly the touched (locale, unit) pairs, each with the unit's table as exported by the generated server function"));
     cov.insert("exhaustive".into(), json!(true));
     rep.finish(cov, &["the hydrate-side consumer (init_translations, serde_wasm_bindgen) needs a browser: not executed"])
 }
@@ -1486,7 +1549,8 @@ fn c18(tier: Tier) -> i32 {
     let per = tier.pick(40, 30);
     let mut built = vec![];
     // (.. whole numbers beyond the 64-bit integers, the negative zero)
-    let num_values: Vec<f64> = vec![1234567.891, 0.0, 42.0, -42.0, 1e19, 6.022e23, -0.0, 9007199254740993.0];
+    // (.. four integer digits: where `min2` and `auto` part in locales that group from the fourth digit on)
+    let num_values: Vec<f64> = vec![1234567.891, 1234.0, 0.0, 42.0, -42.0, -9999.5, 1e19, 6.022e23, -0.0, 9007199254740993.0];
     let lists: Vec<&str> = vec!["[\"A\", \"B\", \"C\"]", "[\"A\"]", "[\"A\", \"B\"]", "[\"\"; 0]"];
     // position of each declaration inside its family: the quick tier runs the view / format-macro flavours on the
     // first two declarations of every family and on every third of the rest
@@ -1705,7 +1769,7 @@ fn c18(tier: Tier) -> i32 {
     rep.nontriv(n_cases as u64 * locales.len() as u64);
     rep.sample(json!({"key": "[fr]{{ v, currency(width: narrow; currency_code: EUR) }}", "probe": "cmp(id, td_string!(Locale::fr_CA, f27, v = 1234567.891f64).to_string(), format!(\"[fr]{}\", d_cur(\"fr-CA\", CurrencyWidth::Narrow, \"EUR\", 1234567.891)))"}));
     let mut cov = serde_json::Map::new();
-    cov.insert("rule".into(), json!(format!("{n_cases} formatter declarations (every name x every documented argument value + omitted + invalid, unknown argument, swapped order) as keys of a project with locales en, fr, de, ja, ar, bn (non-Latin default digits) and fr-CA (all keys null, inherits fr: fr's declaration rendered for fr-CA); for each key x locale x values (numbers 1234567.891, 0, 42, -42, 1e19, 6.022e23, -0.0, 2^53+1; a fixed date, time, datetime; lists of 3, 1, 2, 0 items) td_string! (all), td! -> html and td_format_string! / td_format_display! / td_format! -> html (quick: the first two declarations of every family and every second or third of the rest) are compared inside the probe with a direct ICU4X call for the locale being rendered; on a context: for the first declaration of every family and every ordered pair of 4 locales, a t_format! / tu_format! / t! view created under the first locale and rendered after set_locale to the second must format for the second; cache histories: every sequence of length <= {} over 6 number-formatter lookups that collide pairwise on locale or on options, each element compared with its direct-ICU value whatever ran before; the number / currency / list declarations again in a probe built WITHOUT icu_compiled_data whose formatters come from a derived IcuDataProvider (set_icu_data_provider) - on the registering thread and on threads spawned afterwards", tier.pick(4, 5))));
+    cov.insert("rule".into(), json!(format!("{n_cases} formatter declarations (every name x every documented argument value + omitted + invalid, unknown argument, swapped order) as keys of a project with locales en, fr, de, ja, ar, bn (non-Latin default digits) and fr-CA (all keys null, inherits fr: fr's declaration rendered for fr-CA); for each key x locale x values (numbers 1234567.891, 1234, 0, 42, -42, -9999.5, 1e19, 6.022e23, -0.0, 2^53+1; a fixed date, time, datetime; lists of 3, 1, 2, 0 items) td_string! (all), td! -> html and td_format_string! / td_format_display! / td_format! -> html (quick: the first two declarations of every family and every second or third of the rest) are compared inside the probe with a direct ICU4X call for the locale being rendered; on a context: for the first declaration of every family and every ordered pair of 4 locales, a t_format! / tu_format! / t! view created under the first locale and rendered after set_locale to the second must format for the second; cache histories: every sequence of length <= {} over 6 number-formatter lookups that collide pairwise on locale or on options, each element compared with its direct-ICU value whatever ran before; the number / currency / list declarations again in a probe built WITHOUT icu_compiled_data whose formatters come from a derived IcuDataProvider (set_icu_data_provider) - on the registering thread and on threads spawned afterwards", tier.pick(4, 5))));
     cov.insert("exhaustive".into(), json!(tier == Tier::Thorough));
     rep.finish(cov, &["ICU4X formatting with compiled data is the reference (trusted base)", "thread interleavings of the cache are the loom engine's part of this check"])
 }
@@ -2349,8 +2413,8 @@ fn resolve_fn(accept: Option<&'static str>) -> String {
 fn c15(tier: Tier) -> i32 {
     let rep = Reporter::new("C15", "L3", tier);
     // (declared locales, default)
-    let configs: Vec<(Vec<&str>, &str)> = vec![(vec!["fr", "de"], "en"), (vec!["fr", "de", "en"], "en"), (vec!["fr", "en", "de"], "en"), (vec!["en", "fr", "de"], "en"), (vec!["de"], "fr"), (vec!["en-GB", "fr-CA"], "pt-BR")];
-    let headers: Vec<Option<&str>> = vec![None, Some(""), Some("it"), Some("xx,yy"), Some("garbage!!"), Some("fr"), Some("de"), Some("en"), Some("it,de"), Some("de,fr"), Some("fr-CA,it"), Some("pt"), Some("en-US,en-GB")];
+    let configs: Vec<(Vec<&str>, &str)> = vec![(vec!["fr", "de"], "en"), (vec!["fr", "de", "en"], "en"), (vec!["fr", "en", "de"], "en"), (vec!["en", "fr", "de"], "en"), (vec!["de"], "fr"), (vec!["en-GB", "fr-CA"], "pt-BR"), (vec!["en", "zh", "fr", "sr-Latn"], "en")];
+    let headers: Vec<Option<&str>> = vec![None, Some(""), Some("it"), Some("xx,yy"), Some("garbage!!"), Some("fr"), Some("de"), Some("en"), Some("it,de"), Some("de,fr"), Some("fr-CA,it"), Some("pt"), Some("en-US,en-GB"), Some("zh-Hant-TW,fr;q=0.8"), Some("zh-Hans"), Some("sr-Cyrl,zh-TW"), Some("sr-Latn-RS,fr")];
     let mut cases = vec![];
     for (ci, (locales, default)) in configs.iter().enumerate() {
         let mut p = Project::new(Config::simple(default, locales));
@@ -2365,30 +2429,42 @@ fn c15(tier: Tier) -> i32 {
             // form); an exact match wins; nothing matchable -> the default
             let want: Vec<String> = {
                 let mut out = vec![];
-                let parse = |t: &str| -> Option<(String, Option<String>)> {
+                // (language, script, region); anything else in the tag makes it unusable for this small oracle
+                let parse = |t: &str| -> Option<(String, Option<String>, Option<String>)> {
                     let t = t.split(';').next().unwrap_or("");
-                    let mut it = t.split('-');
+                    let mut it = t.split('-').peekable();
                     let lang = it.next()?.to_string();
                     if lang.len() < 2 || lang.len() > 3 || !lang.chars().all(|c| c.is_ascii_alphabetic()) {
                         return None;
                     }
-                    let region = it.next().map(|r| r.to_string());
-                    if let Some(r) = &region {
-                        if !(r.len() == 2 && r.chars().all(|c| c.is_ascii_alphabetic())) {
-                            return None;
+                    let mut script = None;
+                    if let Some(p) = it.peek() {
+                        if p.len() == 4 && p.chars().all(|c| c.is_ascii_alphabetic()) {
+                            script = Some(p.to_lowercase());
+                            it.next();
                         }
                     }
-                    Some((lang.to_lowercase(), region.map(|r| r.to_uppercase())))
+                    let mut region = None;
+                    if let Some(p) = it.peek() {
+                        if p.len() == 2 && p.chars().all(|c| c.is_ascii_alphabetic()) {
+                            region = Some(p.to_uppercase());
+                            it.next();
+                        }
+                    }
+                    if it.next().is_some() {
+                        return None;
+                    }
+                    Some((lang.to_lowercase(), script, region))
                 };
                 if let Some(h) = h {
                     for entry in h.split(',') {
-                        let Some((lang, region)) = parse(entry) else { continue };
-                        let sup: Vec<(String, (String, Option<String>))> = eff.iter().filter_map(|n| parse(n).map(|p| (n.clone(), p))).collect();
-                        if let Some((n, _)) = sup.iter().find(|(_, p)| p.0 == lang && p.1 == region) {
+                        let Some(r) = parse(entry) else { continue };
+                        let sup: Vec<(String, (String, Option<String>, Option<String>))> = eff.iter().filter_map(|n| parse(n).map(|p| (n.clone(), p))).collect();
+                        if let Some((n, _)) = sup.iter().find(|(_, p)| *p == r) {
                             out = vec![n.clone()];
                             break;
                         }
-                        let m: Vec<String> = sup.iter().filter(|(_, p)| p.0 == lang && p.1.is_none()).map(|(n, _)| n.clone()).collect();
+                        let m: Vec<String> = sup.iter().filter(|(_, p)| p.0 == r.0 && (p.1.is_none() || p.1 == r.1) && (p.2.is_none() || p.2 == r.2)).map(|(n, _)| n.clone()).collect();
                         if !m.is_empty() {
                             out = m;
                             break;
